@@ -4,6 +4,7 @@ import (
 	"fmt"
 	"go/token"
 	"math"
+	"regexp"
 	"go/types"
 	"strconv"
 	"strings"
@@ -242,6 +243,11 @@ func (e *Engine) intrinsic(fn *ssa.Function, args []Value) (Value, bool) {
 				return mkTerm("(fp.abs "+t.S+")", t.Sort), true
 			}
 			return mkTerm("(fp.roundToIntegral "+mode+" "+t.S+")", t.Sort), true
+		}
+	}
+	if strings.Contains(name, "regexp.") {
+		if r, ok := e.regexpIntrinsic(name, args); ok {
+			return r, true
 		}
 	}
 	if h, ok := e.sh.extraIntrinsics[name]; ok {
@@ -1128,4 +1134,56 @@ func (e *Engine) mapKeySetsDiffer(a, b Value, depth int) *Term {
 		return r
 	}
 	return tFalse
+}
+
+// ---------------------------------------------------------------- native values (regexp)
+
+// NativeVal wraps a native Go value the engine cannot interpret (a compiled regexp):
+// only the methods listed below are given meaning, each run natively on concrete or
+// finite-union string operands.
+type NativeVal struct{ V interface{} }
+
+func nativeRegexp(v Value) *regexp.Regexp {
+	p, ok := v.(Pointer)
+	if !ok || p.O == nil {
+		panic(goPanic{msg: "nil pointer dereference"})
+	}
+	nv, ok := p.O.Val.(*NativeVal)
+	if !ok {
+		panic(abort{"regexp method on a value the engine did not create"})
+	}
+	return nv.V.(*regexp.Regexp)
+}
+
+func (e *Engine) regexpIntrinsic(name string, args []Value) (Value, bool) {
+	switch name {
+	case "regexp.MustCompile", "regexp.Compile":
+		pat := e.concreteStr(args[0])
+		re, err := regexp.Compile(pat)
+		if err != nil {
+			if name == "regexp.MustCompile" {
+				panic(goPanic{msg: "regexp: Compile(" + pat + "): " + err.Error()})
+			}
+			return &Agg{F: []Value{Pointer{}, e.newErr(err.Error(), nil, false)}}, true
+		}
+		p := Pointer{O: e.newObj(&NativeVal{re}, "regexp")}
+		if name == "regexp.Compile" {
+			return &Agg{F: []Value{p, Iface{}}}, true
+		}
+		return p, true
+	case "(*regexp.Regexp).FindStringSubmatch":
+		re := nativeRegexp(args[0])
+		return e.liftPure(args[1:], func(c []interface{}) []interface{} { return []interface{}{re.FindStringSubmatch(c[0].(string))} }), true
+	case "(*regexp.Regexp).MatchString":
+		re := nativeRegexp(args[0])
+		return e.liftPure(args[1:], func(c []interface{}) []interface{} { return []interface{}{re.MatchString(c[0].(string))} }), true
+	case "(*regexp.Regexp).ReplaceAllString":
+		re := nativeRegexp(args[0])
+		return e.liftPure(args[1:], func(c []interface{}) []interface{} {
+			return []interface{}{re.ReplaceAllString(c[0].(string), c[1].(string))}
+		}), true
+	case "(*regexp.Regexp).String":
+		return nativeRegexp(args[0]).String(), true
+	}
+	return nil, false
 }
